@@ -15,13 +15,29 @@ Proof.
     destruct orc; cbn; repeat split; intros; try discriminate; try reflexivity; congruence.
 Qed.
 
-(* the guard is necessary: a site the table does not call guarded either dereferences NULL or silently stores it *)
+(* the guard is necessary: a site the table does not call guarded dereferences NULL, silently stores it, or swallows the failure *)
 Lemma unguarded_not_clean : forall s, guarded s = false ->
-  (exists k, run_site s None = Fault k) \/ run_site s None = SilentNull.
+  (exists k, run_site s None = Fault k) \/ run_site s None = SilentNull \/ run_site s None = Swallowed.
 Proof.
   intros s G. unfold run_site, site_prog, guarded in *.
   destruct (s_class s) eqn:C; try discriminate; try rewrite G;
-    try (left; eexists; reflexivity); right; reflexivity.
+    try (left; eexists; reflexivity); try (right; left; reflexivity); right; right; reflexivity.
+Qed.
+
+Lemma swallowed_runs : forall s, s_class s = GuardedButSwallowed ->
+  forall orc : oracle,
+    (forall k, run_site s orc <> Fault k) /\ run_site s orc <> SilentNull /\ (orc = None -> run_site s orc = Swallowed).
+Proof.
+  intros s C orc. unfold run_site, site_prog. rewrite C.
+  destruct orc; cbn; repeat split; intros; try discriminate; try reflexivity; congruence.
+Qed.
+
+Lemma accepted_ok : forall s, accepted s = true -> alloc_failure_clean s \/ alloc_failure_swallowed_benign s.
+Proof.
+  intros s A. unfold accepted in A. apply orb_true_iff in A. destruct A as [G | B].
+  - left. intro orc. destruct (guarded_no_fault s G orc) as (a & b & c & _). repeat split; assumption.
+  - right. split; [assumption |]. unfold benign_swallowed in B.
+    destruct (s_class s) eqn:C; try discriminate. apply swallowed_runs; assumption.
 Qed.
 
 Lemma stored_unchecked_is_silent : forall s, s_class s = StoredUnchecked -> run_site s None = SilentNull.
@@ -47,7 +63,7 @@ Definition open_sites_unguarded (l : list site) : bool :=
 
 Lemma open_sites_unclean : forall l, open_sites_unguarded l = true ->
   forall s, In s l -> known_open s = true ->
-  (exists k, run_site s None = Fault k) \/ run_site s None = SilentNull.
+  (exists k, run_site s None = Fault k) \/ run_site s None = SilentNull \/ run_site s None = Swallowed.
 Proof.
   intros l H s Hin Hk. unfold open_sites_unguarded in H. rewrite forallb_forall in H.
   specialize (H s Hin). rewrite Hk in H. apply unguarded_not_clean.
@@ -56,20 +72,27 @@ Qed.
 
 (* ---- the generated table (these are the proofs that break when a NULL check disappears from the C sources) *)
 Lemma table_wellformed :
-  nodup_keys nil sites = true /\ length sites = n_sites /\ 200 <= n_sites /\ known_open_are_unguarded_sites = true.
+  nodup_keys nil sites = true /\ length sites = n_sites /\ 200 <= n_sites /\ known_open_are_unguarded_sites = true /\
+  benign_keys_are_swallowed_sites = true.
 Proof. vm_compute. repeat split; try reflexivity. repeat constructor. Qed.
 
-Lemma sites_guarded : forallb guarded checked_sites = true.
+Lemma sites_guarded : forallb accepted checked_sites = true.
 Proof. vm_compute. reflexivity. Qed.
 
-Lemma no_site_faults : forall s, In s sites -> known_open s = false -> alloc_failure_clean s.
+Lemma no_site_faults : forall s, In s sites -> known_open s = false ->
+  alloc_failure_clean s \/ alloc_failure_swallowed_benign s.
 Proof.
-  intros s Hin Hk. apply (forallb_guarded_all checked_sites sites_guarded).
+  intros s Hin Hk. apply accepted_ok.
+  pose proof sites_guarded as H. rewrite forallb_forall in H. apply H.
   unfold checked_sites. apply filter_In. split; [assumption | rewrite Hk; reflexivity].
 Qed.
 
+(* the sites that are not on the benign list and swallow a failure are NOT accepted: in particular a new one breaks sites_guarded *)
+Lemma swallowed_needs_review : forall s, s_class s = GuardedButSwallowed -> benign_swallowed s = false -> accepted s = false.
+Proof. intros s C B. unfold accepted, guarded. rewrite C, B. reflexivity. Qed.
+
 Lemma known_open_sites_unclean : forall s, In s sites -> known_open s = true ->
-  (exists k, run_site s None = Fault k) \/ run_site s None = SilentNull.
+  (exists k, run_site s None = Fault k) \/ run_site s None = SilentNull \/ run_site s None = Swallowed.
 Proof. apply open_sites_unclean. vm_compute. reflexivity. Qed.
 
 (* non-vacuity: the classes are inhabited in the model *)
@@ -81,6 +104,11 @@ Proof. reflexivity. Qed.
 Example ex_guarded_error_edge :
   run_site (mkSite "f.c:f#1" "f.c" "f" 1 1%N "psMalloc" "p" (GuardedBeforeUse GInline) false []) None = ErrorEdge.
 Proof. reflexivity. Qed.
+(* `psk->params->sni = psMalloc(..); if (psk->params->sni != NULL) { copy }` and the PSK is returned without its server name *)
+Example ex_swallowed :
+  run_site (mkSite "tls13Psk.c:tls13NewPsk#5" "tls13Psk.c" "tls13NewPsk" 5 1%N "psMalloc" "psk->params->sni" GuardedButSwallowed false []) None = Swallowed
+  /\ accepted (mkSite "tls13Psk.c:tls13NewPsk#5" "tls13Psk.c" "tls13NewPsk" 5 1%N "psMalloc" "psk->params->sni" GuardedButSwallowed false []) = false.
+Proof. split; reflexivity. Qed.
 (* `ssl->expectedName = psStrdupN(name);` followed by a success return *)
 Example ex_stored_unchecked :
   run_site (mkSite "a.c:f@psStrdupN#1" "a.c" "f" 1 1%N "psStrdupN" "ssl->expectedName" StoredUnchecked false []) None = SilentNull.
